@@ -30,6 +30,7 @@ type Config struct {
 	Solver        string
 	TimeoutMs     int
 	SchedChoice   bool
+	CloseYield    bool // closing a channel is a scheduling point (with SchedChoice)
 	MapOrderChoice bool
 	RaceMode      bool // record an event skeleton and run the order-variable race analysis on completed paths
 	ConcreteMem   bool // pkg/mem sizes are a fixed 8 GiB instead of nondeterministic values
@@ -395,6 +396,7 @@ func runOne(mainpkg *ssa.Package, sizes types.Sizes, fnName string, cfg *Config,
 		tmpl:       tmpl,
 	}
 	i.sc.schedChoice = cfg.SchedChoice
+	i.sc.closeYield = cfg.CloseYield
 	if cfg.RaceMode {
 		i.evlog = newEventLog()
 	}
